@@ -670,11 +670,17 @@ func wrap180(x float64) float64 {
 	return x
 }
 
-// positions: stratified grid of the usable region including its border
+// positions: stratified grid of the usable region including its border.  About a quarter of the positions
+// (never the first of a line of 8) are tied to their predecessor — same meridian, same parallel, an exact
+// repeat, or 2.5e-6 degrees away (more than the 1e-6 degree clause, less than a single-precision key
+// resolves) — so that an answer remembered from the previous call (memo keyed on one coordinate or on a
+// rounded value) is a wrong answer for the next one.
 func positions(r *vproto.Rng, reg region, a, b crs, n int) [][2]float64 {
 	out := make([][2]float64, 0, n)
+	var prevLat, prevOff float64 // previous latitude; previous longitude BEFORE the prime-meridian shift / wrap
+	latMid := (reg.latLo + reg.latHi) / 2
 	for i := 0; i < n; i++ {
-		var lon, lat float64
+		var off, lat float64 // off: absolute longitude in B's frame, or offset from lon_0
 		// latitude
 		switch k := r.Intn(6); {
 		case k == 0 && len(reg.special) > 0:
@@ -691,33 +697,59 @@ func positions(r *vproto.Rng, reg region, a, b crs, n int) [][2]float64 {
 			// stratified: i-th stratum of n
 			lat = reg.latLo + (reg.latHi-reg.latLo)*(float64(i)+r.Float())/float64(n)
 		}
+		var offMid float64
 		if reg.absolute {
 			switch r.Intn(6) {
 			case 0:
-				lon = []float64{reg.lonLo, reg.lonHi}[r.Intn(2)]
+				off = []float64{reg.lonLo, reg.lonHi}[r.Intn(2)]
 			default:
-				lon = reg.lonLo + (reg.lonHi-reg.lonLo)*r.Float()
+				off = reg.lonLo + (reg.lonHi-reg.lonLo)*r.Float()
 			}
-			// longitudes are given in A's frame; keep A's value inside [-180, 180]
-			if reg.lonLo == -180 {
-				// any longitude is fine
-			} else {
-				lon = lon + b.pm - a.pm // region is stated in B's prime-meridian frame (as lon_0 is)
-			}
-			lon = wrap180(lon)
+			offMid = (reg.lonLo + reg.lonHi) / 2
 		} else {
-			var d float64
 			switch r.Intn(6) {
 			case 0:
-				d = []float64{reg.dlon, -reg.dlon}[r.Intn(2)]
+				off = []float64{reg.dlon, -reg.dlon}[r.Intn(2)]
 			case 1:
-				d = 0
+				off = 0
 			default:
-				d = (r.Float()*2 - 1) * reg.dlon
+				off = (r.Float()*2 - 1) * reg.dlon
 			}
-			// lon_0 is relative to B's prime meridian; A's longitudes are relative to A's
-			lon = wrap180(reg.lon0 + b.pm - a.pm + d)
 		}
+		if i%8 != 0 {
+			const tiny = 2.5e-6
+			towards := func(x, mid float64) float64 { // a tiny step that stays inside the region
+				if x > mid {
+					return x - tiny
+				}
+				return x + tiny
+			}
+			switch r.Intn(20) {
+			case 0: // same meridian, another latitude
+				off = prevOff
+			case 1: // same parallel, another longitude
+				lat = prevLat
+			case 2: // exact repeat
+				off, lat = prevOff, prevLat
+			case 3: // 2.5e-6 degrees north/south of the previous position
+				off, lat = prevOff, towards(prevLat, latMid)
+			case 4: // 2.5e-6 degrees east/west of it
+				off, lat = towards(prevOff, offMid), prevLat
+			}
+		}
+		prevLat, prevOff = lat, off
+		var lon float64
+		if reg.absolute {
+			// longitudes are given in A's frame; keep A's value inside [-180, 180]
+			lon = off
+			if reg.lonLo != -180 {
+				lon = off + b.pm - a.pm // region is stated in B's prime-meridian frame (as lon_0 is)
+			}
+		} else {
+			// lon_0 is relative to B's prime meridian; A's longitudes are relative to A's
+			lon = reg.lon0 + b.pm - a.pm + off
+		}
+		lon = wrap180(lon)
 		out = append(out, [2]float64{rnd(lon, 9), rnd(lat, 9)})
 	}
 	return out
